@@ -74,8 +74,9 @@ func c12Gen(class string, seed uint64, tier string) *vfScenario {
 		sc.Ops = c01GenOps(rng, P, M, rng.IntN(3), true)
 		sc.Ops = append(sc.Ops, vfOp{K: "close"})
 		// the CLOSE itself may fail: (1) the peer answers it with a failure, (2) the link dies instead of an answer
-		if x := rng.IntN(4); x >= 2 {
-			sc.Cfg["closefault"] = int64(x - 1)
+		if x := rng.IntN(6); x >= 2 {
+			sc.Cfg["closefault"] = int64([]int{1, 2, 1, 3}[x-2])
+			sc.Cfg["closecode"] = int64([]int{4, 1, 2, 3, 5, 6, 7, 8, 4, 9}[rng.IntN(10)])
 		}
 		for _, k := range []string{"read", "readat", "write", "writeat", "seek", "fstat", "truncate", "chmod", "fchown", "sync", "readfrom", "readfromc", "writeto", "close", "setext"} {
 			sc.Ops = append(sc.Ops, vfOp{K: k, N: 1 + rng.IntN(3*P), Off: int64(rng.IntN(5)), A: int64(rng.IntN(3)), S: "4,0,-1,0"})
@@ -98,7 +99,7 @@ func c12Gen(class string, seed uint64, tier string) *vfScenario {
 			// open os.File, goes on referring to the file it opened
 			at := rng.IntN(len(sc.Ops))
 			ops := append([]vfOp{}, sc.Ops[:at]...)
-			mv := vfOp{K: "oobmove", A: int64(rng.IntN(3))} // 0: the name is gone; 1: a larger file has taken it; 2: an empty one
+			mv := vfOp{K: "oobmove", A: int64(rng.IntN(4))} // 0: the name is gone; 1: a larger file has taken it; 2: an empty one; 3: a shorter one (still longer than a packet if possible)
 			ops = append(ops, mv)
 			for _, op := range sc.Ops[at:] {
 				if op.K == "writeto" && mv.A == 0 {
@@ -185,8 +186,14 @@ func c12History(r *vfRun) {
 				return nil
 			}
 			if closeFault == 1 {
+				// any failure status: the client maps EOF / NO_SUCH_FILE / PERMISSION_DENIED to io.EOF / os.ErrNotExist /
+				// os.ErrPermission, the others stay *StatusError; the File is closed whichever it is
 				sim.count("fault.close.status")
-				return ssStatus(rq.q.ID, 4, "close failed").encode()
+				return ssStatus(rq.q.ID, uint32(sc.cfg("closecode", 4)), "close failed").encode()
+			}
+			if closeFault == 3 {
+				sim.count("fault.close.wrongtype")
+				return (&wResp{Type: wtHandle, ID: rq.q.ID, Handle: "zz"}).encode()
 			}
 			sim.count("fault.close.linklost")
 			peer.s2c.terminate(io.ErrUnexpectedEOF, "cut")
@@ -212,6 +219,12 @@ func c12History(r *vfRun) {
 					os.WriteFile(v.root+"/f", make([]byte, len(ref.data)+3), 0o644)
 				case 2:
 					os.WriteFile(v.root+"/f", nil, 0o644)
+				case 3:
+					n := len(ref.data) / 2
+					if p := int(sc.cfg("P", 4)) + 1; n < p && p < len(ref.data) {
+						n = p
+					}
+					os.WriteFile(v.root+"/f", make([]byte, n), 0o644)
 				}
 				nameGone = op.A == 0
 				v.served = func() []byte { b, _ := os.ReadFile(v.root + "/f.moved"); return b }
